@@ -1,4 +1,4 @@
-\* generated with the builder script of C02/C08; families: MCSearchers.tla
+\* generated by mkcfg_searchers.py; families and layouts: MCSearchers.tla
 SPECIFICATION Spec
 CONSTANTS
   SegSizes <- Segs212
@@ -11,8 +11,8 @@ CONSTANTS
   Family = "leaf"
   DropK1 = FALSE
   Queries <- MCQueries
-  FixEmptySnapshot = FALSE
-  FixBoolAdvance = FALSE
+  FixEmptySnapshot = TRUE
+  FixBoolAdvance = TRUE
   FixShouldMin = FALSE
   FirstAdvanceOK <- FirstAdvAlways
 INVARIANT ResultOK
